@@ -12,6 +12,9 @@ import fsspec
 from fsspec.spec import AbstractFileSystem
 
 STORES = {}
+MTIMES = {}  # (store id, path) -> modification time (seconds); advanced by every write unless the writer preserves it
+SHARED = {}  # (store id, path) -> the one file object of a store opened with shared_handles=True
+_clock = [1_600_000_000.0]
 LOG = []
 HOOK = [None]
 _handle_counter = [0]
@@ -29,7 +32,15 @@ def reset_log():
     del LOG[:]
 
 
+def touch(store_id, path, keep_mtime=False):
+    if not (keep_mtime and (store_id, path) in MTIMES):
+        _clock[0] += 1.0
+        MTIMES[(store_id, path)] = _clock[0]
+
+
 class McFile:
+    shared = False
+
     def __init__(self, fs, path, data):
         self.fs, self.path, self.data, self.pos, self.closed = fs, path, data, 0, False
         with _lock:
@@ -88,7 +99,8 @@ class McFile:
     def close(self):
         if not self.closed:
             ev("close", self.path, self.hid, 0, 0)
-        self.closed = True
+        if not self.shared:  # like fsspec's MemoryFile, a shared file object stays usable after close()
+            self.closed = True
 
     def __enter__(self):
         return self
@@ -110,9 +122,11 @@ class McFS(AbstractFileSystem):
     protocol = "mcfs"
     cachable = False
 
-    def __init__(self, store="default", **kw):
-        super().__init__(store=store, **kw)
+    def __init__(self, store="default", shared_handles=False, **kw):
+        super().__init__(store=store, shared_handles=shared_handles, **kw)
         self.store_id = store
+        # shared_handles=True mimics fsspec's memory filesystem: open() hands out the ONE stored file object, rewound
+        self.shared_handles = shared_handles
 
     @property
     def store(self):
@@ -129,7 +143,7 @@ class McFS(AbstractFileSystem):
         p = self._strip_protocol(path)
         ev("info", p, 0, 0, 0)
         if p in self.store:
-            return {"name": p, "size": len(self.store[p]), "type": "file"}
+            return {"name": p, "size": len(self.store[p]), "type": "file", "mtime": MTIMES.get((self.store_id, p), 1_600_000_000.0), "created": 1_600_000_000.0}
         if any(k.startswith(p.rstrip("/") + "/") for k in self.store):
             return {"name": p, "size": 0, "type": "directory"}
         raise FileNotFoundError(p)
@@ -146,11 +160,31 @@ class McFS(AbstractFileSystem):
             if p not in self.store:
                 ev("open-missing", p, 0, 0, 0)
                 raise FileNotFoundError(p)
+            if self.shared_handles:
+                f = SHARED.get((self.store_id, p))
+                if f is None or f.data is not self.store[p]:
+                    f = SHARED[(self.store_id, p)] = McFile(self, p, self.store[p])
+                    f.shared = True
+                else:
+                    ev("open", p, f.hid, 0, len(f.data))
+                f.pos = 0
+                return f
             return McFile(self, p, self.store[p])
         raise NotImplementedError(mode)
 
+    def modified(self, path):
+        import datetime
+
+        return datetime.datetime.fromtimestamp(self.info(path)["mtime"], tz=datetime.timezone.utc)
+
+    def created(self, path):
+        import datetime
+
+        return datetime.datetime.fromtimestamp(self.info(path)["created"], tz=datetime.timezone.utc)
+
     def pipe_file(self, path, value, **kw):
         self.store[self._strip_protocol(path)] = bytes(value)
+        touch(self.store_id, self._strip_protocol(path))
 
     def rm_file(self, path):
         del self.store[self._strip_protocol(path)]
@@ -171,10 +205,14 @@ def put_product(store_id, root, files):
     root = "/" + root.strip("/")
     for k, v in files.items():
         st[f"{root}/{k}"] = bytes(v)
+        touch(store_id, f"{root}/{k}")
 
 
 def drop_store(store_id):
     STORES.pop(store_id, None)
+    for d in (MTIMES, SHARED):
+        for k in [k for k in d if k[0] == store_id]:
+            del d[k]
 
 
 register()
